@@ -399,7 +399,12 @@ def sched_scenarios(rng, n):
             if rng.random() < 0.5:
                 ops.append(_cmd(2, "CMD SETFORMAT 1\0"))
         for i, (rx, tx) in tune:
-            ops += [_cmd(i, "CMD RXTUNE %d\0" % rx), _cmd(i, "CMD TXTUNE %d\0" % tx)]
+            if rng.random() < 0.35:
+                # frequency hopping over a one-channel allocation: the same routing, but every frequency look-up of the tick
+                # goes through the hopping parameters (which POWEROFF drops)
+                ops.append(_cmd(i, "CMD SETFH %d %d %d %d\0" % (rng.randrange(64), rng.randrange(64), rx, tx)))
+            else:
+                ops += [_cmd(i, "CMD RXTUNE %d\0" % rx), _cmd(i, "CMD TXTUNE %d\0" % tx)]
             if i == j and ver:
                 ops.append(_cmd(i, "CMD SETFORMAT 1\0"))
             if i == k and kver:
@@ -624,30 +629,34 @@ def sched_oracle(run, corr, deep, n_quick=260, n_thorough=4000):
     if found < 3:
         nl = run.scale(30, 400) * (3 if deep else 1)
         sub = scen[:nl]
-        probe = [info["head"] + " ; ".join(ops + ["L 99999 " + race]) for ops, race, info in sub]
-        pa = vf.run_lines([vf.PY, SCHED_HARNESS, vf.TRX], probe)
         llines, lmeta = [], []
-        for (ops, race, info), a in zip(sub, pa):
-            if a.startswith(("cfgerr", "HARNESS")):
-                raise vf.HarnessError("schedule harness (line level): %s" % a[:300])
-            pts = _parse_race(a.split(" | ")[0].split(" ; ")[-1])[4]
-            for k in range(pts):
-                llines.append(info["head"] + " ; ".join(ops + ["L %d %s" % (k, race)]))
-                lmeta.append((info, k, pts))
+        for mode in ("L", "S"):
+            # L: the tick parked before each of its line events, the socket operation runs there;
+            # S: the socket operation parked before each of ITS line events (e.g. inside its locked section), a whole tick runs there
+            probe = [info["head"] + " ; ".join(ops + ["%s 99999 %s" % (mode, race)]) for ops, race, info in sub]
+            pa = vf.run_lines([vf.PY, SCHED_HARNESS, vf.TRX], probe)
+            for (ops, race, info), a in zip(sub, pa):
+                if a.startswith(("cfgerr", "HARNESS")):
+                    raise vf.HarnessError("schedule harness (line level): %s" % a[:300])
+                pts = _parse_race(a.split(" | ")[0].split(" ; ")[-1])[4]
+                for k in range(pts):
+                    llines.append(info["head"] + " ; ".join(ops + ["%s %d %s" % (mode, k, race)]))
+                    lmeta.append((info, k, pts, mode))
         la = vf.run_lines([vf.PY, SCHED_HARNESS, vf.TRX], llines)
-        for l, a, (info, k, pts) in zip(llines, la, lmeta):
+        for l, a, (info, k, pts, mode) in zip(llines, la, lmeta):
             if a.startswith(("cfgerr", "HARNESS")):
                 raise vf.HarnessError("schedule harness (line level): %s" % a[:300])
             w = _sched_judge(info, a)
             if w is not None:
                 at = [x for x in a.split(" | ")[0].split(" ; ")[-1].split(",") if x.startswith("at:")]
                 found += run.report_witness({"kind": "schedule", "property": "C03", "what": w, "boundary": k, "of": pts,
-                                             "line_level": True, "parked_before": at[0][3:] if at else None,
+                                             "line_level": True, "gated_thread": "socket" if mode == "S" else "clock",
+                                             "parked_before": at[0][3:] if at else None,
                                              "racing_op": info["kind"], "scenario": info, "history": l,
-                                             "readable": describe(l.replace("L %d " % k, ""))})
+                                             "readable": describe(l.replace("%s %d " % (mode, k), ""))})
                 if found >= 3:
                     break
-        corr.distribution["oracle(C03): line-level schedules replayed on the real objects (one op before every line event of a tick)"] = len(llines)
+        corr.distribution["oracle(C03): line-level schedules replayed on the real objects (the op before every line event of the tick, and a tick before every line event of the op)"] = len(llines)
     corr.distribution["oracle(C03): race scenarios"] = len(scen)
     corr.distribution["oracle(C03): schedules replayed on the real objects (one op x one tick, every boundary)"] = len(lines)
     kinds = {}
